@@ -652,8 +652,12 @@ def do_run(mod, modname, tier, seed, b, scratch, t0):
         shutil.rmtree(ctx.casedir_root, ignore_errors=True)
 
     if m['errors']:
-        lines.append('ERROR harness: %d case(s) raised in the monitor code; first:\n%s' % (len(m['errors']), m['errors'][0]['trace']))
-        if status == 0:
+        # an exception in the monitor code is a defect of the harness, not an observation about bkl: the cases are
+        # inconclusive; only when they are many does the run as a whole count as an infrastructure error
+        many = len(m['errors']) > max(3, 0.02 * max(1, m['cases']))
+        lines.append('%s: %d case(s) raised in the monitor code and were not judged; first:\n%s' % (
+            'ERROR harness' if many else 'INCONCLUSIVE', len(m['errors']), m['errors'][0]['trace']))
+        if many and status == 0:
             status = 2
     verdict_total = sum(m['verdicts'].values())
     nontriv = len(m['nontrivial_hashes'])
@@ -685,6 +689,7 @@ def do_run(mod, modname, tier, seed, b, scratch, t0):
             'step_budget': STEP_BUDGET,
             'worker_deaths': m['worker_deaths'],
             'inconclusive_cases': m['inconclusive'][:5],
+            'monitor_exceptions': len(m['errors']),
             'known_findings_seen': [l for l in lines if l.startswith('KNOWN-FINDING')],
             'run_inconclusive': inconclusive_run,
             'exhaustive': bool(getattr(mod, 'EXHAUSTIVE', {}).get(tier, False)),
